@@ -1,5 +1,5 @@
 (* C15 -- proofs about Schema/IntrospectModel.v against Spec/IntrospectSpec.v *)
-From PyGql Require Import Spec.IntrospectSpec.
+From PyGql Require Import Spec.IntrospectSpec Proofs.IntrospectJsonProofs.
 From Coq Require Import Sorting.Permutation Sorting.Sorted Lia ZifyBool DecimalPos DecimalFacts.
 
 (* ------------------------------------------------------------------ *)
@@ -718,18 +718,60 @@ Proof.
   unfold is_scalar_name, leaf_lit. destruct (find_type n ts) as [[? ? []]|]; try discriminate; reflexivity.
 Qed.
 
+Lemma strip_non_null_base t t' : strip_non_null t = IRList t' -> iref_base t' = iref_base t.
+Proof. induction t; simpl; intros H; try discriminate; auto. inversion H; reflexivity. Qed.
+
+(* at a scalar-typed position the declared default denotes itself *)
+Lemma lit_of_default_scalar (ts : list (itype pv)) v : forall t,
+  is_scalar_name ts (iref_base t) = true -> lit_of_default ts v t = plain_lit v.
+Proof.
+  induction v as [|b|z|r|x|l IH|kvs IH] using pv_ind'; intros t Hs;
+    try (unfold lit_of_default; apply leaf_lit_scalar; exact Hs); try reflexivity.
+  - change (lit_of_default ts (PList l) t) with
+      (match strip_non_null t with
+       | IRList t' => LList (map (fun x => lit_of_default ts x t') l)
+       | _ => plain_lit (PList l) end).
+    destruct (strip_non_null t) as [| t' |] eqn:Hst; try reflexivity.
+    rewrite plain_lit_list. f_equal. apply map_ext_in. intros x Hx.
+    rewrite Forall_forall in IH. apply IH; [exact Hx|].
+    rewrite (strip_non_null_base _ _ Hst). exact Hs.
+  - unfold is_scalar_name in Hs. cbn [lit_of_default].
+    destruct (find_type (iref_base t) ts) as [[? ? []]|]; try discriminate. reflexivity.
+Qed.
+
+Lemma default_okb_inv (ts : list (itype pv)) t v : default_okb ts t v = true ->
+  v = PNone \/
+  (is_scalar_name ts (iref_base t) = true /\ scalar_denotable v = true /\
+   match v with
+   | PStr x => forallb plain_char x = true
+   | PList _ => has_astral v = false
+   | _ => True end).
+Proof.
+  unfold default_okb, in_open_finding, denotable, class_enum, class_input_object, class_string_escape,
+    class_astral_in_list, base_def, is_scalar_name.
+  destruct v as [|b|z|r|x|l|kvs]; [left; reflexivity|..]; intros H; right;
+    destruct (find_type (iref_base t) ts) as [[? ? []]|]; simpl in H; try discriminate;
+    repeat split; auto; try (apply andb_true_iff in H as [H1 H2]; auto).
+  - rewrite orb_false_r, negb_involutive in H1. exact H1.
+  - rewrite ?orb_false_r in H1. apply negb_true_iff in H1. exact H1.
+Qed.
+
 Lemma decode_default_ok (ts : list (itype pv)) t d :
   match d with Some v => default_ok ts t v | None => True end ->
   decode_default (Some (format_default_value d)) = Some (option_map (fun v => lit_of_default ts v t) d).
 Proof.
-  destruct d as [v|]; [|reflexivity]. destruct v as [|b|z|r|x|l|kvs]; simpl; try contradiction.
+  destruct d as [v|]; [|reflexivity]. intros Hok. apply default_okb_inv in Hok as [->|(Hs & Hd & Hx)]; [reflexivity|].
+  cbn [option_map]. rewrite (lit_of_default_scalar ts v t Hs).
+  destruct v as [|b|z|r|x|l|kvs]; try discriminate.
   - reflexivity.
-  - intros Hs. unfold lit_of_default. rewrite (leaf_lit_scalar _ _ _ Hs). destruct b; reflexivity.
-  - intros Hs. unfold lit_of_default. rewrite (leaf_lit_scalar _ _ _ Hs).
-    destruct z; try (change (json_dumps (PInt ?z)) with (dec_of_Z z));
-      cbn [format_default_value decode_default json_dumps]; rewrite parse_lit_int; reflexivity.
-  - intros [Hs Hp]. unfold lit_of_default. rewrite (leaf_lit_scalar _ _ _ Hs).
-    cbn [decode_default]. rewrite parse_lit_string by assumption. reflexivity.
+  - destruct b; reflexivity.
+  - change (format_default_value (Some (PInt z))) with (PStr (json_dumps (PInt z))).
+    cbn [decode_default]. rewrite parse_lit_json by (auto; reflexivity). reflexivity.
+  - change (format_default_value (Some (PFloat r))) with (PStr (json_dumps (PFloat r))).
+    cbn [decode_default]. rewrite parse_lit_json by (auto; reflexivity). reflexivity.
+  - cbn [format_default_value decode_default]. rewrite parse_lit_string by assumption. reflexivity.
+  - change (format_default_value (Some (PList l))) with (PStr (json_dumps (PList l))).
+    cbn [decode_default]. rewrite parse_lit_json by assumption. reflexivity.
 Qed.
 
 (* ------------------------------------------------------------------ *)
@@ -991,6 +1033,10 @@ Definition w_input : ischema pv :=
 Definition w_string : ischema pv :=
   w_schema [] (w_iv "s" (IRNamed (S_ "String")) (Some (PStr (S_ "he""llo")))).
 
+(* f(l: [String] = ["\U0001F600"]) *)
+Definition w_astral : ischema pv :=
+  w_schema [] (w_iv "l" (IRList (IRNamed (S_ "String"))) (Some (PList [PStr [128512%N]]))).
+
 Ltac solve_schema_ok :=
   unfold schema_ok, type_ok, field_ok, input_ok, ref_ok; simpl;
   repeat first [ apply Forall_nil | apply Forall_cons | split | exact I
@@ -1008,6 +1054,26 @@ Lemma w_string_refutes : decode (introspect_model w_string full_flags) <> Some (
 Proof. vm_compute. discriminate. Qed.
 
 (* what the three answers say *)
+Lemma w_astral_ok : schema_ok false w_astral. Proof. solve_schema_ok. Qed.
+Lemma w_astral_refutes : decode (introspect_model w_astral full_flags) <> Some (public w_astral).
+Proof. vm_compute. discriminate. Qed.
+
+(* each witness's default is in its open-finding class, so the guard of the
+   exactness theorem rejects exactly these schemas *)
+Lemma w_classes :
+  class_enum (s_types w_enum) (IRNamed (S_ "Color")) (PStr (S_ "RED")) = true /\
+  class_input_object (s_types w_input) (IRNamed (S_ "Pt")) (PDict [(S_ "x", PInt 2)]) = true /\
+  class_string_escape (s_types w_string) (IRNamed (S_ "String")) (PStr (S_ "he""llo")) = true /\
+  class_astral_in_list (s_types w_astral) (IRList (IRNamed (S_ "String"))) (PList [PStr [128512%N]]) = true.
+Proof. repeat split; reflexivity. Qed.
+
+Lemma w_guard_rejects :
+  schema_okb true w_enum = false /\ schema_okb true w_input = false /\
+  schema_okb true w_string = false /\ schema_okb true w_astral = false /\
+  schema_okb false w_enum = true /\ schema_okb false w_input = true /\
+  schema_okb false w_string = true /\ schema_okb false w_astral = true.
+Proof. repeat split; reflexivity. Qed.
+
 Lemma w_renderings :
   format_default_value (Some (PStr (S_ "RED"))) = PStr (S_ """RED""") /\
   format_default_value (Some (PDict [(S_ "x", PInt 2)])) = PStr (S_ "{""x"": 2}") /\
@@ -1016,3 +1082,80 @@ Proof. repeat split; reflexivity. Qed.
 
 Lemma exact_full_refuted : ~ C15_exact_full.
 Proof. intros H. exact (w_enum_refutes (H w_enum w_enum_ok)). Qed.
+
+
+(* ------------------------------------------------------------------ *)
+(* the boolean guard decides schema_ok *)
+
+Lemma forallb_Forall {A} (p : A -> bool) (P : A -> Prop) l :
+  (forall x, p x = true <-> P x) -> (forallb p l = true <-> Forall P l).
+Proof.
+  intros H. induction l as [|x l IH]; simpl; [split; auto|].
+  rewrite andb_true_iff, IH, H. split; [intros [? ?]; constructor; auto|intros HF; inversion HF; auto].
+Qed.
+
+Lemma ref_okb_ok t : ref_okb t = true <-> ref_ok t.
+Proof. unfold ref_okb, ref_ok. apply Nat.leb_le. Qed.
+
+Lemma input_okb_ok d ts iv : input_okb d ts iv = true <-> input_ok d ts iv.
+Proof.
+  unfold input_okb, input_ok, default_ok. rewrite andb_true_iff, ref_okb_ok.
+  destruct d; simpl; destruct (iv_default iv); intuition.
+Qed.
+
+Lemma field_okb_ok d ts f : field_okb d ts f = true <-> field_ok d ts f.
+Proof.
+  unfold field_okb, field_ok. rewrite andb_true_iff, ref_okb_ok.
+  rewrite (forallb_Forall _ (input_ok d ts)) by (intros; apply input_okb_ok). reflexivity.
+Qed.
+
+Lemma type_okb_ok d ts t : type_okb d ts t = true <-> type_ok d ts t.
+Proof.
+  unfold type_okb, type_ok. destruct (t_def t); try (split; auto; fail).
+  - apply forallb_Forall. intros; apply field_okb_ok.
+  - apply forallb_Forall. intros; apply field_okb_ok.
+  - apply forallb_Forall. intros; apply input_okb_ok.
+Qed.
+
+Lemma schema_okb_ok d s : schema_okb d s = true <-> schema_ok d s.
+Proof.
+  unfold schema_okb, schema_ok. rewrite andb_true_iff.
+  rewrite (forallb_Forall _ (type_ok d (s_types s))) by (intros; apply type_okb_ok).
+  rewrite (forallb_Forall _ (fun dr => Forall (input_ok d (s_types s)) (dr_args dr))).
+  - reflexivity.
+  - intros dr. apply forallb_Forall. intros; apply input_okb_ok.
+Qed.
+
+(* ------------------------------------------------------------------ *)
+(* the ofType nesting of the TypeRef fragment *)
+
+Lemma decode_ref_too_deep (ts : list (itype pv)) d : forall t fuel,
+  d < iref_depth t -> decode_ref fuel (type_ref ts d t) = None.
+Proof.
+  induction d as [|d IH]; intros t fuel Ht; (destruct fuel as [|f]; [reflexivity|]).
+  - destruct t as [n|t|t]; simpl in Ht; try lia; reflexivity.
+  - destruct t as [n|t|t]; simpl in Ht; try lia.
+    + change (decode_ref (S f) (type_ref ts (S d) (IRList t))) with
+        (option_map IRList (decode_ref f (type_ref ts d t))).
+      rewrite IH by lia. reflexivity.
+    + change (decode_ref (S f) (type_ref ts (S d) (IRNonNull t))) with
+        (option_map IRNonNull (decode_ref f (type_ref ts d t))).
+      rewrite IH by lia. reflexivity.
+Qed.
+
+Fixpoint lists_of (n : nat) (t : iref) : iref :=
+  match n with O => t | S n' => IRList (lists_of n' t) end.
+
+(* type Query { f: [[[[[[[[Int]]]]]]]] }  (8 wrappers), no defaults anywhere *)
+Definition w_deep (n : nat) : ischema pv :=
+  ISchema [IType (S_ "Query") None
+                 (IObject [IField (S_ "f") None [] (lists_of n (IRNamed (S_ "Int"))) false None] []);
+           IType (S_ "Int") None IScalar]
+          [] (S_ "Query") None None.
+
+Lemma w_deep_facts :
+  decode (introspect_model (w_deep 8) full_flags) = None /\
+  schema_okb true (w_deep 8) = false /\
+  schema_okb true (w_deep 7) = true /\
+  decode (introspect_model (w_deep 7) full_flags) = Some (public (w_deep 7)).
+Proof. repeat split; vm_compute; reflexivity. Qed.
